@@ -949,6 +949,8 @@ def run_check(tier, seed):
         V.cov['traces_validated_against_impl'] = evals - len(tie_diffs)
         V.cov['rule'] = ('scenario = random define/write history through the public API: create (CDF-1/2/5, alignment hints), dims/attributes (all types, length 0, '
                          '30..200 elements)/variables (fixed + record), enddef or ncmpi__enddef with random h_minfree/v_align/v_minfree/r_align, data of every variable, '
+                         'blocking collective sub-array / strided puts and gets between enddef and the next redef or close (rank 0 keeps a non-contiguous file view), read-back of '
+                         'every value written, '
                          'sync, data-mode put_att/rename, 0..2 redefinitions (new dims/atts/vars, deletions, renames), close; every 10th scenario has no variable '
                          '(close truncation), every 10th clobbers a larger predecessor (regular file or symlink); after every enddef/sync/close the inquiries and a '
                          'snapshot of the file are compared with the Lean model and decoded by the Lean specification decoder. non-trivial = scenario with at least '
